@@ -213,6 +213,8 @@ def build_harness(name, flavor, srcs, wraps=(), cflags=(), ldflags=(), lib=True,
         errs = [l for l in r.stdout.splitlines() if 'error' in l or 'undefined reference' in l]
         raise Inconclusive('harness build failed (%s/%s):\n%s\n...\n%s' % (name, flavor, '\n'.join(errs[:40]), r.stdout[-1500:]))
     os.rename(tmp, exe)
+    for g in glob.glob(tmp + '-*.gcno'):
+        os.unlink(g)
     _prune('h-%s-%s-' % (name, flavor), keep=exe)
     return exe
 
@@ -442,6 +444,65 @@ def replay_case(v, verbose=True, timeout=300):
     return keys, so, se, rc
 
 
+# ---------------------------------------------------------------- line coverage of anchored files (thorough tier)
+def line_coverage(exe_cov, prop, seed, cases, files, nshards=None, args=(), env=None, timeout=900, tier='thorough'):
+    """Run a 'cov'-flavor harness and return {file: {lines, executed, percent, unexecuted_ranges}} via gcov."""
+    prefix = os.path.join(BUILD, 'gcov-%s-%d' % (prop, os.getpid()))
+    shutil.rmtree(prefix, ignore_errors=True)
+    os.makedirs(prefix)
+    e = {'GCOV_PREFIX': prefix, 'GCOV_PREFIX_STRIP': '0'}
+    if env:
+        e.update(env)
+    r = run_harness(exe_cov, prop, seed, cases, nshards=nshards, tier=tier, args=args, env=e, timeout=timeout, label='cov')
+    objs = build_lib('cov')
+    objdir = os.path.dirname(objs[0])
+    gdir = None
+    for root, dirs, fs in os.walk(prefix):     # objects were compiled in a temporary directory that was renamed afterwards
+        if any(f.endswith('.gcda') and f[:-5] + '.o' in [os.path.basename(o) for o in objs] for f in fs):
+            gdir = root
+            break
+    out = {}
+    if not gdir:
+        shutil.rmtree(prefix, ignore_errors=True)
+        return {'error': 'no .gcda produced'}
+    for f in glob.glob(os.path.join(objdir, '*.gcno')):
+        shutil.copy(f, gdir)
+    for rel in files:
+        if not rel.endswith('.c'):
+            continue
+        base = os.path.basename(rel)[:-2]
+        if not os.path.exists(os.path.join(gdir, base + '.gcda')):
+            out[rel] = {'error': 'not executed'}
+            continue
+        pr = subprocess.run(['gcov', '-t', '-o', gdir, os.path.join(SRC, rel)], stdout=subprocess.PIPE, stderr=subprocess.DEVNULL, text=True, cwd=gdir)
+        total = hit = 0
+        miss = []
+        cur = None
+        for line in pr.stdout.splitlines():
+            parts = line.split(':', 2)
+            if len(parts) < 3:
+                continue
+            cnt, ln = parts[0].strip(), parts[1].strip()
+            if not ln.isdigit() or int(ln) == 0:
+                continue
+            if cnt == '-':
+                continue
+            total += 1
+            if cnt.startswith('#####') or cnt.startswith('====='):
+                n = int(ln)
+                if cur and n <= cur[1] + 2:
+                    cur[1] = n
+                else:
+                    cur = [n, n]
+                    miss.append(cur)
+            else:
+                hit += 1
+        out[rel] = {'lines': total, 'executed': hit, 'percent': round(100.0 * hit / total, 1) if total else 0.0,
+                    'unexecuted_ranges': ['%d-%d' % (a, b) if a != b else str(a) for a, b in miss[:60]]}
+    shutil.rmtree(prefix, ignore_errors=True)
+    return out
+
+
 # ---------------------------------------------------------------- known findings
 def load_known():
     p = os.path.join(ROOT, 'known_findings.json')
@@ -480,6 +541,15 @@ class Check:
         self.results.append((label, r))
         log('[%s] %s: cases=%d evals=%d cov=%d viol=%d restarts=%d wall=%.1fs' % (self.prop, label, r.cases, r.evals, len(r.cov), len(r.violations), r.restarts, r.wall))
         return r
+
+    def coverage(self, exe_cov, cases, files, **kw):
+        """Thorough tier only: gcov line coverage of the anchored files under this workload (information, not a verdict)."""
+        if self.tier != 'thorough':
+            return
+        try:
+            self.cov['line_coverage_of_anchored_files'] = line_coverage(exe_cov, self.prop, self.seed, cases, files, **kw)
+        except Exception as e:       # coverage is supplementary: never turns a verdict
+            self.cov['line_coverage_of_anchored_files'] = {'error': str(e)[:300]}
 
     def require(self, name, minimum=1):
         self.required.append((name, minimum))
